@@ -266,3 +266,52 @@ RT(bti, dtt_BTI, 3, 1, 0) RT(hti, dtt_HTI, 3, 0, 0) RT(vti, dtt_VTI, 3, 0, 0) RT
 RT(min, dtt_MIN, 2, 0, 0) RT(ttm, dtt_TTM, 1, 0, 0) RT(tth, dtt_TTH, 1, 0, 0) RT(ttq, dtt_TTQ, 1, 0, 0)
 RT(bda, dtt_BDA, 4, 1, 1) RT(bda3, dtt_BDA_3, 3, 1, 0) RT(hda, dtt_HDA, 4, 0, 1) RT(hda3, dtt_HDA_3, 3, 0, 0) RT(bdz, dtt_BDZ, 4, 1, 1)
 RT(day, dtt_DAY, 2, 0, 0) RT(dtm, dtt_DTM, 4, 0, 0)
+
+/* ---------------- C07: encoding a date / time text: accepted iff its components are in range, and the bytes decode to the same components ---------------- */
+enum wkind { WK_TIME, WK_MIN, WK_TRUNC, WK_DATE, WK_DAY, WK_DTM };
+static inline int write_then_read(const DTT* t, size_t len, int kind, unsigned res) {
+  struct iss text; long c[5]; size_t nc = kind == WK_TIME ? len : kind == WK_MIN || kind == WK_TRUNC ? 2 : kind == WK_DTM ? 5 : 3;
+  for (size_t k = 0; k < 5; k++) { c[k] = nondet_long(); __CPROVER_assume(c[k] >= 0 && c[k] <= 3000); }
+  text.n = nc; text.pos = 0; for (size_t k = 0; k < TOKC; k++) { text.kind[k] = 1; text.val[k] = k < 5 ? c[k] : 0; }
+  SymbolString out; out.m_isMaster = 0; out.m_data.n = 1; out.m_data.d[0] = 0; size_t used = nondet_size();
+  result_t w = DTT_writeSymbols(t, 0, len, &text, &out, &used);
+  _Bool accept;
+  if (kind == WK_TIME) accept = c[0] <= 24 && c[1] <= 59 && (len < 3 || c[2] <= 59) && (c[0] < 24 || (c[1] == 0 && (len < 3 || c[2] == 0)));
+  else if (kind == WK_MIN || kind == WK_TRUNC) accept = c[0] <= 24 && c[1] <= 59 && (c[0] < 24 || c[1] == 0);
+  else {
+    long y = c[2] < 100 ? c[2] + 2000 : c[2];
+    if (kind == WK_DATE) accept = c[0] >= 1 && c[0] <= 31 && c[1] >= 1 && c[1] <= 12 && y >= 2000 && y <= 2099 && c[2] <= 2099;
+    else if (kind == WK_DAY) accept = spec_valid_date(y, c[1], c[0]) && y >= 1900 && c[2] <= 2099 && spec_days_since_1900(y, c[1], c[0]) <= 65535;
+    else accept = spec_valid_date(y, c[1], c[0]) && y >= 2009 && y <= 2099 && c[2] <= 2099 && c[3] <= 24 && c[4] <= 59 && (c[3] < 24 || c[4] == 0);
+  }
+  if (kind == WK_DAY || kind == WK_DTM) {       /* only calendar dates are specified as input for the day / minute counts */
+    long y = c[2] < 100 ? c[2] + 2000 : c[2];
+    if (!(c[0] >= 1 && c[1] >= 1 && c[1] <= 12 && c[0] <= spec_dim(y, c[1]))) return 0;
+  }
+  __CPROVER_assert((w == RESULT_OK) == accept, "[C07] a date / time text is encoded iff every component is in the range of the type (else it is rejected with an error)");
+  if (w != RESULT_OK) { __CPROVER_assert(w < 0, "[C07] rejection is an error code"); return OC_BAD_RANGE; }
+  __CPROVER_assert(used == len && out.m_data.n == 1 + len, "[C07] the encoder produces the length of the type");
+  struct tokout o; out_init(&o); out.m_data.d[0] = (symbol_t)len;       /* (the caller adjusts NN) */
+  result_t r = DTT_readSymbols(t, 0, len, &out, 0, &o);
+  /* null collisions: a component equal to the replacement byte decodes as null (00:00 of TTH/TTQ, ...) - the type has no other encoding for it */
+  __CPROVER_assert(r == RESULT_OK, "[C07] what was encoded can be decoded");
+  if (r != RESULT_OK) return OC_BAD_RANGE;
+  _Bool null_seen = 0; for (size_t k = 0; k < TCAP; k++) { if (k < o.n && o.kind[k] == TK_STR && o.val[k] == (long)'-') null_seen = 1; }
+  if (null_seen) return OC_NULL;
+  if (kind == WK_TIME) { for (size_t k = 0; k < 3; k++) { if (k < len) __CPROVER_assert(o.n == 2 * len - 1 && o.val[2 * k] == c[k], "[C07] the encoded time decodes to the requested hour, minute, second"); } }
+  else if (kind == WK_MIN) { __CPROVER_assert(o.n == 3 && o.val[0] == c[0] && o.val[2] == c[1], "[C07] the encoded minutes since midnight decode to the requested time"); }
+  else if (kind == WK_TRUNC) {
+    long req = c[0] * 60 + c[1], got = o.val[0] * 60 + o.val[2], d = req > got ? req - got : got - req;
+    __CPROVER_assert(o.n == 3 && d <= (long)res, "[C07] the encoded truncated time decodes to within one resolution step of the requested time");
+  } else {
+    long y = c[2] < 100 ? c[2] + 2000 : c[2];
+    __CPROVER_assert(o.n >= 5 && o.val[0] == c[0] && o.val[2] == c[1] && o.val[4] == y, "[C07] the encoded date decodes to the requested day, month and year");
+    if (kind == WK_DTM) __CPROVER_assert(o.n == 9 && (c[3] == 24 ? (o.val[6] == 0 || o.val[6] == 24) : o.val[6] == c[3]) && o.val[8] == c[4], "[C07] ... and to the requested hour and minute");
+  }
+  return OC_GOOD;
+}
+#define WR(name, type, len, kind, res) void h_wr_##name(void) { int oc = write_then_read(&type, len, kind, res); SEEN(oc, OC_GOOD, "encoded and decoded") SEEN(oc, OC_BAD_RANGE, "rejected") }
+WR(bti, dtt_BTI, 3, WK_TIME, 0) WR(hti, dtt_HTI, 3, WK_TIME, 0) WR(vti, dtt_VTI, 3, WK_TIME, 0) WR(btm, dtt_BTM, 2, WK_TIME, 0) WR(htm, dtt_HTM, 2, WK_TIME, 0) WR(vtm, dtt_VTM, 2, WK_TIME, 0)
+WR(min, dtt_MIN, 2, WK_MIN, 0) WR(ttm, dtt_TTM, 1, WK_TRUNC, 10) WR(tth, dtt_TTH, 1, WK_TRUNC, 30) WR(ttq, dtt_TTQ, 1, WK_TRUNC, 15)
+WR(bda, dtt_BDA, 4, WK_DATE, 0) WR(bda3, dtt_BDA_3, 3, WK_DATE, 0) WR(hda, dtt_HDA, 4, WK_DATE, 0) WR(hda3, dtt_HDA_3, 3, WK_DATE, 0)
+WR(day, dtt_DAY, 2, WK_DAY, 0) WR(dtm, dtt_DTM, 4, WK_DTM, 0)
